@@ -18,6 +18,7 @@ Good(ev) ==
              \/ ev.op = "Inquire"   /\ Inquire
              \/ ev.op = "Fpack"     /\ Fpack(a.n, a.sel)
              \/ ev.op = "Bump"      /\ Bump
+             \/ ev.op = "SetIl"     /\ SetIl(a.il)
              \/ ev.op = "Detach"    /\ Detach
              \/ ev.op = "Attach"    /\ Attach(a.mode, a.reopen)
           /\ ObsOK(out', o)
